@@ -777,6 +777,9 @@ fn truth_pool() -> Vec<V> {
         V::s("a"),
         V::s(""),
         V::s(" "),
+        V::s("\t"),
+        V::s(" false"),
+        V::s("0 "),
         V::s("no"),
         V::s("é"),
         V::Bytes(vec![97]),
